@@ -99,21 +99,14 @@ REG.add(Contract("ModuleRequirement.rule_specified_with_importer_as_rule_object"
 REG.add(Contract("ModuleRequirement.rule_specified_with_importer_as_rule_subject", module=M_MR, kind="property",
                  params=MRP, returns="Bool", defn="self._importer_specified_as_rule_subject", properties=["C01", "C12"]))
 
-# ---------------------------------------------------------------- spec of the three searches as relations (shared with c_graph)
-REG.macro("deps_rel", ["g", "s", "o", "n", "c"],
-          "desc(g, fid(s), n) and imp(g, n, c) and desc(g, fid(o), c) and (not in_P2(s, o, n)) and (not in_P2(s, o, c))")
-REG.macro("other_rel", ["g", "s", "O", "n", "c"],
-          "desc(g, fid(s), n) and (not E_other(g, s, O, n)) and imp(g, n, c) and (not E_other(g, s, O, c)) and not desc(g, fid(s), c)")
-REG.macro("other_rev_rel", ["g", "S", "o", "p", "n"],
-          "N_rev(g, o, n) and imp(g, p, n) and (not E_rev(g, S, o, p)) and not N_rev(g, o, p)")
+# ---------------------------------------------------------------- (search relations: see c_graph)
 REG.macro("f2m", ["f"], "mk_mod(is_parent(f), fid(f))")
 
 # ---------------------------------------------------------------- EvaluableArchitectureGraph
 EG = "EvaluableArchitectureGraph"
 REG.macro("GD_post", ["g", "S", "O", "r"],
           "forall(Dep, lambda k: (k in r) == exists(Filter, Filter, lambda s, o: (s in S) and (o in O) and k == (f2m(s), f2m(o)))) "
-          "and forall(Filter, Filter, Node, Node, lambda s, o, n, c: implies((s in S) and (o in O), (dep_of(n, c) in r[(f2m(s), f2m(o))]) == deps_rel(g, s, o, n, c))) "
-          "and forall(Filter, Filter, Dep, lambda s, o, d: implies((s in S) and (o in O) and (d in r[(f2m(s), f2m(o))]), plain_dep(d)))")
+          "and forall(Filter, Filter, Dep, lambda s, o, d: implies((s in S) and (o in O), (d in r[(f2m(s), f2m(o))]) == deps_rel_d(g, s, o, d)))")
 REG.add(Contract(
     f"{EG}.get_dependencies", module=M_EG, kind="method",
     params=dict(self=EG, dependents="Bag[Filter]", dependent_upons="Bag[Filter]"), returns="Dict[Dep,Bag[Dep]]",
@@ -123,16 +116,14 @@ REG.add(Contract(
     locals=dict(result="Dict[Dep,Bag[Dep]]"),
     loops={0: dict(sig="for (dependent, dependent_upon) in product(dependents_set, dependent_upons_set)", invariant=[
         "forall(Dep, lambda k: (k in result) == exists(Filter, Filter, lambda s, o: ((s, o) in seen) and k == (f2m(s), f2m(o))))",
-        "forall(Filter, Filter, Node, Node, lambda s, o, n, c: implies((s, o) in seen, (dep_of(n, c) in result[(f2m(s), f2m(o))]) == deps_rel(self._graph, s, o, n, c)))",
-        "forall(Filter, Filter, Dep, lambda s, o, d: implies(((s, o) in seen) and (d in result[(f2m(s), f2m(o))]), plain_dep(d)))",
+        "forall(Filter, Filter, Dep, lambda s, o, d: implies((s, o) in seen, (d in result[(f2m(s), f2m(o))]) == deps_rel_d(self._graph, s, o, d)))",
         "forall(Filter, Filter, lambda s, o: implies((s, o) in seen, node(self._graph, fid(s)) and node(self._graph, fid(o))))",
     ])},
     properties=["C01", "C03", "C11", "C12", "C13", "C15"]))
 
 REG.macro("AD_post", ["g", "S", "O", "r"],
           "forall(Mod, lambda k: (k in r) == exists(Filter, lambda s: (s in S) and k == f2m(s))) "
-          "and forall(Filter, Node, Node, lambda s, n, c: implies(s in S, (dep_of(n, c) in r[f2m(s)]) == other_rel(g, s, O, n, c))) "
-          "and forall(Filter, Dep, lambda s, d: implies((s in S) and (d in r[f2m(s)]), plain_dep(d)))")
+          "and forall(Filter, Dep, lambda s, d: implies(s in S, (d in r[f2m(s)]) == other_rel_d(g, s, O, d)))")
 REG.add(Contract(
     f"{EG}.any_dependencies_from_dependents_to_modules_other_than_dependent_upons", module=M_EG, kind="method",
     params=dict(self=EG, dependents="Bag[Filter]", dependent_upons="Bag[Filter]"), returns="Dict[Mod,Bag[Dep]]",
@@ -143,16 +134,14 @@ REG.add(Contract(
     locals=dict(result="Dict[Mod,Bag[Dep]]"),
     loops={0: dict(sig="for dependent in dependents_set", invariant=[
         "forall(Mod, lambda k: (k in result) == exists(Filter, lambda s: (s in seen) and k == f2m(s)))",
-        "forall(Filter, Node, Node, lambda s, n, c: implies(s in seen, (dep_of(n, c) in result[f2m(s)]) == other_rel(self._graph, s, dependent_upons, n, c)))",
-        "forall(Filter, Dep, lambda s, d: implies((s in seen) and (d in result[f2m(s)]), plain_dep(d)))",
+        "forall(Filter, Dep, lambda s, d: implies(s in seen, (d in result[f2m(s)]) == other_rel_d(self._graph, s, dependent_upons, d)))",
         "forall(Filter, lambda s: implies(s in seen, node(self._graph, fid(s)) and not exists(Filter, lambda o: (o in dependent_upons) and o != s and not node(self._graph, fid(o)))))",
     ])},
     properties=["C01", "C03", "C12", "C13", "C15"]))
 
 REG.macro("AO_post", ["g", "S", "O", "r"],
           "forall(Mod, lambda k: (k in r) == exists(Filter, lambda o: (o in O) and k == f2m(o))) "
-          "and forall(Filter, Node, Node, lambda o, p, n: implies(o in O, (dep_of(p, n) in r[f2m(o)]) == other_rev_rel(g, S, o, p, n))) "
-          "and forall(Filter, Dep, lambda o, d: implies((o in O) and (d in r[f2m(o)]), plain_dep(d)))")
+          "and forall(Filter, Dep, lambda o, d: implies(o in O, (d in r[f2m(o)]) == other_rev_rel_d(g, S, o, d)))")
 REG.add(Contract(
     f"{EG}.any_other_dependencies_on_dependent_upons_than_from_dependents", module=M_EG, kind="method",
     params=dict(self=EG, dependents="Bag[Filter]", dependent_upons="Bag[Filter]"), returns="Dict[Mod,Bag[Dep]]",
@@ -162,8 +151,7 @@ REG.add(Contract(
     locals=dict(result="Dict[Mod,Bag[Dep]]"),
     loops={0: dict(sig="for dependent_upon in dependent_upons_set", invariant=[
         "forall(Mod, lambda k: (k in result) == exists(Filter, lambda o: (o in seen) and k == f2m(o)))",
-        "forall(Filter, Node, Node, lambda o, p, n: implies(o in seen, (dep_of(p, n) in result[f2m(o)]) == other_rev_rel(self._graph, dependents, o, p, n)))",
-        "forall(Filter, Dep, lambda o, d: implies((o in seen) and (d in result[f2m(o)]), plain_dep(d)))",
+        "forall(Filter, Dep, lambda o, d: implies(o in seen, (d in result[f2m(o)]) == other_rev_rel_d(self._graph, dependents, o, d)))",
         "forall(Filter, lambda o: implies(o in seen, node(self._graph, fid(o)) and not exists(Filter, lambda s: (s in dependents) and s != o and not node(self._graph, fid(s)))))",
     ])},
     properties=["C01", "C03", "C12", "C13", "C15"]))
@@ -191,17 +179,21 @@ REG.add(Contract("RuleViolationBaseDetector._get_importee_modules_as_specified_b
                  ensures=["forall(Mod, lambda m: (m in result) == exists(Filter, lambda f: (f in self._module_requirement._importees_as_specified_by_user) and m == f2m(f)))"],
                  properties=["C01", "C03"]))
 
-# realised(d) = user-ordered image of the union of the dict's value lists
-REG.macro("realised_rel", ["mr", "d", "x"], "exists(Dep, Dep, lambda k, dep: (k in d) and (dep in d[k]) and x == order_dep(mr, dep))")
-REG.macro("realised_rel_m", ["mr", "d", "x"], "exists(Mod, Dep, lambda k, dep: (k in d) and (dep in d[k]) and x == order_dep(mr, dep))")
-REG.macro("abstract_missing_rel", ["mr", "d", "x"], "exists(Dep, lambda k: (k in d) and (not nonempty(d[k])) and x == order_dep(mr, k))")
-REG.macro("missing_rel", ["mr", "d", "x"],
-          "exists(Mod, Filter, lambda m, o: (m in d) and (not nonempty(d[m])) and (o in mr._importees_as_specified_by_user) and x == (m, f2m(o)))")
+# dict-level bucket relations (subj: importer is rule subject; objs: objects as specified by the user)
+REG.macro("order_b", ["subj", "d"], "d if subj else (d[1], d[0])")
+REG.define("realised_b", dict(subj="Bool", r="Dict[Dep,Bag[Dep]]", x="Dep"), "exists(Dep, Dep, lambda k, dep: (k in r) and (dep in r[k]) and x == order_b(subj, dep))")
+REG.define("realised_m_b", dict(subj="Bool", r="Dict[Mod,Bag[Dep]]", x="Dep"), "exists(Mod, Dep, lambda k, dep: (k in r) and (dep in r[k]) and x == order_b(subj, dep))")
+REG.define("abstract_b", dict(subj="Bool", r="Dict[Dep,Bag[Dep]]", x="Dep"), "exists(Dep, lambda k: (k in r) and (not nonempty(r[k])) and x == order_b(subj, k))")
+REG.define("missing_b", dict(objs="Bag[Filter]", r="Dict[Mod,Bag[Dep]]", x="Dep"), "exists(Mod, Filter, lambda m, o: (m in r) and (not nonempty(r[m])) and (o in objs) and x == (m, f2m(o)))")
+REG.macro("realised_rel", ["mr", "d", "x"], "realised_b(mr._importer_specified_as_rule_subject, d, x)")
+REG.macro("realised_rel_m", ["mr", "d", "x"], "realised_m_b(mr._importer_specified_as_rule_subject, d, x)")
+REG.macro("abstract_missing_rel", ["mr", "d", "x"], "abstract_b(mr._importer_specified_as_rule_subject, d, x)")
+REG.macro("missing_rel", ["mr", "d", "x"], "missing_b(mr._importees_as_specified_by_user, d, x)")
 
 _inner = dict(sig="for dependency in dependencies", invariant=[
-    "forall(Dep, lambda x: (x in violating_dependencies_in_user_specified_rule_subject_object_order) == ((x in pre(violating_dependencies_in_user_specified_rule_subject_object_order)) or exists(Dep, lambda dep: (dep in seen) and x == order_dep(self._module_requirement, dep))))"])
+    "forall(Dep, lambda x: (x in violating_dependencies_in_user_specified_rule_subject_object_order) == ((x in pre(violating_dependencies_in_user_specified_rule_subject_object_order)) or exists(Dep, lambda dep: (dep in seen) and x == order_b(self._module_requirement._importer_specified_as_rule_subject, dep))))"])
 _outer = dict(sig="for dependencies in violating_dependencies", invariant=[
-    "forall(Dep, lambda x: (x in violating_dependencies_in_user_specified_rule_subject_object_order) == exists(Bag[Dep], Dep, lambda B, dep: (B in seen) and (dep in B) and x == order_dep(self._module_requirement, dep)))"])
+    "forall(Dep, lambda x: (x in violating_dependencies_in_user_specified_rule_subject_object_order) == exists(Bag[Dep], Dep, lambda B, dep: (B in seen) and (dep in B) and x == order_b(self._module_requirement._importer_specified_as_rule_subject, dep)))"])
 c1 = REG.add(Contract("RuleViolationBaseDetector._get_realised_dependencies", module=M_RVD, kind="method",
                       params=dict(self=RVD, explicitly_requested_dependencies="Dict[Dep,Bag[Dep]]"), returns="Set[Dep]",
                       ensures=["forall(Dep, lambda x: (x in result) == realised_rel(self._module_requirement, explicitly_requested_dependencies, x))"],
@@ -252,18 +244,18 @@ for _name, _K, _rel in _BUCKET_METHODS:
     _an = _argnames(M_RVD, f"{RVD}.{_name}") or ["self", "flag", "deps"]
     REG.add(Contract(f"{RVD}.{_name}", module=M_RVD, kind="method",
                      params={_an[0]: RVD, _an[1]: "Bool", _an[2]: f"Opt[Dict[{_K},Bag[Dep]]]"}, returns="Set[Dep]",
-                     ensures=[f"forall(Dep, lambda x: (x in result) == ({_an[1]} and (not is_none({_an[2]})) and {_rel}(self._module_requirement, {_an[2]}, x)))"],
+                     ensures=[f"forall(Dep, lambda x: (x in result) == ({_an[1]} and (not is_none({_an[2]})) and {_rel}(self._module_requirement, unwrap({_an[2]}), x)))"],
                      properties=["C01", "C03", "C12"]))
 
 REG.macro("viol_buckets", ["mr", "b", "expl", "nexpl", "r"],
-          "forall(Dep, lambda x: (x in r.should_not_violations) == (b.should_not and (not b.behavior_exception) and (not is_none(expl)) and realised_rel(mr, expl, x))) "
-          "and forall(Dep, lambda x: (x in r.should_violations) == (b.should and (not b.behavior_exception) and (not is_none(expl)) and abstract_missing_rel(mr, expl, x))) "
-          "and forall(Dep, lambda x: (x in r.should_only_violations_by_no_import) == (b.should_only and (not b.behavior_exception) and (not is_none(expl)) and abstract_missing_rel(mr, expl, x))) "
-          "and forall(Dep, lambda x: (x in r.should_only_violations_by_forbidden_import) == (b.should_only and (not b.behavior_exception) and (not is_none(nexpl)) and realised_rel_m(mr, nexpl, x))) "
-          "and forall(Dep, lambda x: (x in r.should_except_violations) == (b.should and b.behavior_exception and (not is_none(nexpl)) and missing_rel(mr, nexpl, x))) "
-          "and forall(Dep, lambda x: (x in r.should_only_except_violations_by_no_import) == (b.should_only and b.behavior_exception and (not is_none(nexpl)) and missing_rel(mr, nexpl, x))) "
-          "and forall(Dep, lambda x: (x in r.should_only_except_violations_by_forbidden_import) == (b.should_only and b.behavior_exception and (not is_none(expl)) and realised_rel(mr, expl, x))) "
-          "and forall(Dep, lambda x: (x in r.should_not_except_violations) == (b.should_not and b.behavior_exception and (not is_none(nexpl)) and realised_rel_m(mr, nexpl, x)))")
+          "forall(Dep, lambda x: (x in r.should_not_violations) == (b.should_not and (not b.behavior_exception) and (not is_none(expl)) and realised_rel(mr, unwrap(expl), x))) "
+          "and forall(Dep, lambda x: (x in r.should_violations) == (b.should and (not b.behavior_exception) and (not is_none(expl)) and abstract_missing_rel(mr, unwrap(expl), x))) "
+          "and forall(Dep, lambda x: (x in r.should_only_violations_by_no_import) == (b.should_only and (not b.behavior_exception) and (not is_none(expl)) and abstract_missing_rel(mr, unwrap(expl), x))) "
+          "and forall(Dep, lambda x: (x in r.should_only_violations_by_forbidden_import) == (b.should_only and (not b.behavior_exception) and (not is_none(nexpl)) and realised_rel_m(mr, unwrap(nexpl), x))) "
+          "and forall(Dep, lambda x: (x in r.should_except_violations) == (b.should and b.behavior_exception and (not is_none(nexpl)) and missing_rel(mr, unwrap(nexpl), x))) "
+          "and forall(Dep, lambda x: (x in r.should_only_except_violations_by_no_import) == (b.should_only and b.behavior_exception and (not is_none(nexpl)) and missing_rel(mr, unwrap(nexpl), x))) "
+          "and forall(Dep, lambda x: (x in r.should_only_except_violations_by_forbidden_import) == (b.should_only and b.behavior_exception and (not is_none(expl)) and realised_rel(mr, unwrap(expl), x))) "
+          "and forall(Dep, lambda x: (x in r.should_not_except_violations) == (b.should_not and b.behavior_exception and (not is_none(nexpl)) and realised_rel_m(mr, unwrap(nexpl), x)))")
 REG.add(Contract("RuleViolationBaseDetector.get_rule_violation", module=M_RVD, kind="method",
                  params=dict(self=RVD, explicitly_requested_dependencies="Opt[Dict[Dep,Bag[Dep]]]",
                              not_explicitly_requested_dependencies="Opt[Dict[Mod,Bag[Dep]]]"), returns="RuleViolations",
@@ -330,3 +322,125 @@ REG.add(Contract(
         ]),
     },
     properties=["C11", "C13", "C01"]))
+
+# ---------------------------------------------------------------- RuleMatcher / DefaultRuleMatcher
+_RM_FIELDS = dict(_module_requirement="ModuleRequirement", _behavior_requirement="BehaviorRequirement",
+                  _updated_module_requirement="ModuleRequirement",
+                  _conversion_mapping_importers="Dict[Node,Bag[Mod]]", _conversion_mapping_importees="Dict[Node,Bag[Mod]]")
+vals.declare_obj("DefaultRuleMatcher", _RM_FIELDS)
+DRM = "DefaultRuleMatcher"
+REG.add(Contract("RuleMatcher.__init__", module=M_RM, kind="method",
+                 params=dict(self=DRM, module_requirement="ModuleRequirement", behavior_requirement="BehaviorRequirement"),
+                 returns="None", modifies=["self"],
+                 ensures=["self._module_requirement == module_requirement", "self._behavior_requirement == behavior_requirement"],
+                 properties=["C01"]))
+# user-specified (subject, object) lists -> converted importer / importee sets of the updated requirement
+REG.macro("umr_ok", ["g", "mr", "u"],
+          "forall(Filter, lambda f: (f in u._importer_as_specified_by_user) == conv_member(g, mr._importer_as_specified_by_user, f)) "
+          "and forall(Filter, lambda f: (f in u._importees_as_specified_by_user) == conv_member(g, mr._importees_as_specified_by_user, f)) "
+          "and (u._importer_specified_as_rule_subject == mr._importer_specified_as_rule_subject) "
+          "and forall(Filter, lambda f: (f in u._importers) == conv_member(g, mr._importer_as_specified_by_user if mr._importer_specified_as_rule_subject else mr._importees_as_specified_by_user, f)) "
+          "and forall(Filter, lambda f: (f in u._importees) == conv_member(g, mr._importees_as_specified_by_user if mr._importer_specified_as_rule_subject else mr._importer_as_specified_by_user, f))")
+REG.add(Contract("RuleMatcher._updated_module_requirements", module=M_RM, kind="method",
+                 params=dict(self=DRM, evaluable="EvaluableArchitectureGraph"), returns="None", modifies=["self"],
+                 requires=["WF(evaluable._graph)"],
+                 raises=[("ImpossibleMatch", "regex_unmatched(evaluable._graph, self._module_requirement._importer_as_specified_by_user) or regex_unmatched(evaluable._graph, self._module_requirement._importees_as_specified_by_user)")],
+                 ensures=["umr_ok(evaluable._graph, old(self)._module_requirement, self._updated_module_requirement)",
+                          "self._module_requirement == old(self)._module_requirement",
+                          "self._behavior_requirement == old(self)._behavior_requirement"],
+                 properties=["C01", "C11", "C13"]))
+REG.macro("no_regex", ["F"], "forall(Filter, lambda f: implies(f in F, not is_regex(f)))")
+REG.macro("gd_raises", ["g", "S", "O"], "exists(Filter, Filter, lambda s, o: (s in S) and (o in O) and ((not node(g, fid(s))) or (not node(g, fid(o)))))")
+REG.macro("ad_raises", ["g", "S", "O"], "exists(Filter, lambda s: (s in S) and ((not node(g, fid(s))) or exists(Filter, lambda o: (o in O) and o != s and not node(g, fid(o)))))")
+REG.macro("ao_raises", ["g", "S", "O"], "exists(Filter, lambda o: (o in O) and ((not node(g, fid(o))) or exists(Filter, lambda s: (s in S) and s != o and not node(g, fid(s)))))")
+REG.add(Contract("RuleMatcher._get_explicitly_requested_dependencies", module=M_RM, kind="method",
+                 params=dict(self=DRM, evaluable="EvaluableArchitectureGraph"), returns="Opt[Dict[Dep,Bag[Dep]]]",
+                 requires=["WF(evaluable._graph)"],
+                 raises=[("NetworkXError", "(expl_required(self._behavior_requirement) or expl_forbidden(self._behavior_requirement)) and gd_raises(evaluable._graph, self._updated_module_requirement._importers, self._updated_module_requirement._importees)")],
+                 ensures=["is_none(result) == (not (expl_required(self._behavior_requirement) or expl_forbidden(self._behavior_requirement)))",
+                          "implies(not is_none(result), GD_post(evaluable._graph, self._updated_module_requirement._importers, self._updated_module_requirement._importees, result))"],
+                 properties=["C01", "C12", "C13"]))
+REG.add(Contract("RuleMatcher._get_not_explicitly_requested_dependencies", module=M_RM, kind="method",
+                 params=dict(self=DRM, evaluable="EvaluableArchitectureGraph"), returns="Opt[Dict[Mod,Bag[Dep]]]",
+                 requires=["WF(evaluable._graph)", "no_regex(self._updated_module_requirement._importers)",
+                           "no_regex(self._updated_module_requirement._importees)"],
+                 raises=[("NetworkXError", "(other_required(self._behavior_requirement) or other_forbidden(self._behavior_requirement)) and "
+                          "(ad_raises(evaluable._graph, self._updated_module_requirement._importers, self._updated_module_requirement._importees) if self._updated_module_requirement._importer_specified_as_rule_subject "
+                          "else ao_raises(evaluable._graph, self._updated_module_requirement._importers, self._updated_module_requirement._importees))")],
+                 ensures=["is_none(result) == (not (other_required(self._behavior_requirement) or other_forbidden(self._behavior_requirement)))",
+                          "implies((not is_none(result)) and self._updated_module_requirement._importer_specified_as_rule_subject, AD_post(evaluable._graph, self._updated_module_requirement._importers, self._updated_module_requirement._importees, result))",
+                          "implies((not is_none(result)) and not self._updated_module_requirement._importer_specified_as_rule_subject, AO_post(evaluable._graph, self._updated_module_requirement._importers, self._updated_module_requirement._importees, result))"],
+                 properties=["C01", "C12", "C13"]))
+
+# ---------------------------------------------------------------- violation buckets as functions of the graph (no dicts)
+# S = importers, O = importees of the (converted) requirement; x ranges over (subject, object) pairs
+REG.define("G_realised_b", dict(g="Graph", S="Bag[Filter]", O="Bag[Filter]", subj="Bool", x="Dep"),
+          "exists(Filter, Filter, Dep, lambda s, o, d: (s in S) and (o in O) and deps_rel_d(g, s, o, d) and x == order_b(subj, d))")
+REG.define("G_abstract_b", dict(g="Graph", S="Bag[Filter]", O="Bag[Filter]", subj="Bool", x="Dep"),
+          "exists(Filter, Filter, lambda s, o: (s in S) and (o in O) and (not exists(Dep, lambda d: deps_rel_d(g, s, o, d))) and x == order_b(subj, (f2m(s), f2m(o))))")
+REG.define("G_or_f", dict(g="Graph", S="Bag[Filter]", O="Bag[Filter]", x="Dep"), "exists(Filter, Dep, lambda s, d: (s in S) and other_rel_d(g, s, O, d) and x == d)")
+REG.define("G_or_r", dict(g="Graph", S="Bag[Filter]", O="Bag[Filter]", x="Dep"), "exists(Filter, Dep, lambda o, d: (o in O) and other_rev_rel_d(g, S, o, d) and x == (d[1], d[0]))")
+REG.define("G_om_f", dict(g="Graph", S="Bag[Filter]", O="Bag[Filter]", objs="Bag[Filter]", x="Dep"),
+          "exists(Filter, Filter, lambda s, ob: (s in S) and (ob in objs) and (not exists(Dep, lambda d: other_rel_d(g, s, O, d))) and x == (f2m(s), f2m(ob)))")
+REG.define("G_om_r", dict(g="Graph", S="Bag[Filter]", O="Bag[Filter]", objs="Bag[Filter]", x="Dep"),
+          "exists(Filter, Filter, lambda o, ob: (o in O) and (ob in objs) and (not exists(Dep, lambda d: other_rev_rel_d(g, S, o, d))) and x == (f2m(o), f2m(ob)))")
+REG.macro("G_realised", ["g", "u", "x"], "G_realised_b(g, u._importers, u._importees, u._importer_specified_as_rule_subject, x)")
+REG.macro("G_abstract_missing", ["g", "u", "x"], "G_abstract_b(g, u._importers, u._importees, u._importer_specified_as_rule_subject, x)")
+REG.macro("G_other_realised", ["g", "u", "x"],
+          "(u._importer_specified_as_rule_subject and G_or_f(g, u._importers, u._importees, x)) or ((not u._importer_specified_as_rule_subject) and G_or_r(g, u._importers, u._importees, x))")
+REG.macro("G_other_missing", ["g", "u", "x"],
+          "(u._importer_specified_as_rule_subject and G_om_f(g, u._importers, u._importees, u._importees_as_specified_by_user, x)) or ((not u._importer_specified_as_rule_subject) and G_om_r(g, u._importers, u._importees, u._importees_as_specified_by_user, x))")
+REG.macro("FV_post", ["g", "u", "b", "r"],
+          "forall(Dep, lambda x: (x in r.should_not_violations) == (b.should_not and (not b.behavior_exception) and G_realised(g, u, x))) "
+          "and forall(Dep, lambda x: (x in r.should_violations) == (b.should and (not b.behavior_exception) and G_abstract_missing(g, u, x))) "
+          "and forall(Dep, lambda x: (x in r.should_only_violations_by_no_import) == (b.should_only and (not b.behavior_exception) and G_abstract_missing(g, u, x))) "
+          "and forall(Dep, lambda x: (x in r.should_only_violations_by_forbidden_import) == (b.should_only and (not b.behavior_exception) and G_other_realised(g, u, x))) "
+          "and forall(Dep, lambda x: (x in r.should_except_violations) == (b.should and b.behavior_exception and G_other_missing(g, u, x))) "
+          "and forall(Dep, lambda x: (x in r.should_only_except_violations_by_no_import) == (b.should_only and b.behavior_exception and G_other_missing(g, u, x))) "
+          "and forall(Dep, lambda x: (x in r.should_only_except_violations_by_forbidden_import) == (b.should_only and b.behavior_exception and G_realised(g, u, x))) "
+          "and forall(Dep, lambda x: (x in r.should_not_except_violations) == (b.should_not and b.behavior_exception and G_other_realised(g, u, x)))")
+# glue lemmas (pure: proved once for all graphs / dicts), used at the end of _find_rule_violations
+_LP = dict(g="Graph", S="Bag[Filter]", O="Bag[Filter]", subj="Bool", r="Dict[Dep,Bag[Dep]]")
+REG.lemma("L_realised", params=_LP, requires=["GD_post(g, S, O, r)"],
+          ensures=["forall(Dep, lambda x: realised_b(subj, r, x) == G_realised_b(g, S, O, subj, x))"], properties=["C01", "C03"])
+REG.lemma("L_abstract", params=_LP, requires=["GD_post(g, S, O, r)"],
+          ensures=["forall(Dep, lambda x: abstract_b(subj, r, x) == G_abstract_b(g, S, O, subj, x))"], properties=["C01", "C03"])
+_LM = dict(g="Graph", S="Bag[Filter]", O="Bag[Filter]", objs="Bag[Filter]", r="Dict[Mod,Bag[Dep]]")
+REG.lemma("L_or_f", params=_LM, requires=["AD_post(g, S, O, r)"],
+          ensures=["forall(Dep, lambda x: realised_m_b(True, r, x) == G_or_f(g, S, O, x))"], properties=["C01", "C03"])
+REG.lemma("L_or_r", params=_LM, requires=["AO_post(g, S, O, r)"],
+          ensures=["forall(Dep, lambda x: realised_m_b(False, r, x) == G_or_r(g, S, O, x))"], properties=["C01", "C03"])
+REG.lemma("L_om_f", params=_LM, requires=["AD_post(g, S, O, r)", "no_regex(S)"],
+          ensures=["forall(Dep, lambda x: missing_b(objs, r, x) == G_om_f(g, S, O, objs, x))"], properties=["C01", "C03"])
+REG.lemma("L_om_r", params=_LM, requires=["AO_post(g, S, O, r)", "no_regex(O)"],
+          ensures=["forall(Dep, lambda x: missing_b(objs, r, x) == G_om_r(g, S, O, objs, x))"], properties=["C01", "C03"])
+REG.macro("fv_raises", ["g", "u", "b"],
+          "((expl_required(b) or expl_forbidden(b)) and gd_raises(g, u._importers, u._importees)) or "
+          "((other_required(b) or other_forbidden(b)) and (ad_raises(g, u._importers, u._importees) if u._importer_specified_as_rule_subject else ao_raises(g, u._importers, u._importees)))")
+
+REG.add(Contract("RuleMatcher._create_module_name_regex_conversion_mapping", module=M_RM, kind="method",
+                 params=dict(self=DRM), returns="Dict[Node,Bag[Mod]]",
+                 locals=dict(result="Dict[Node,Bag[Mod]]", existing_values="Set[Mod]"),
+                 loops={0: dict(sig="for (key, values) in self._conversion_mapping_importees.items()", invariant=[])},
+                 note="result only consumed by the layer matcher (C05); here: total, no effect on self",
+                 properties=["C01", "C05"]))
+REG.add(Contract("DefaultRuleMatcher._get_rule_violation_detector", module=M_RM, kind="method",
+                 params=dict(self=DRM, _="Dict[Node,Bag[Mod]]"), returns="RuleViolationDetector",
+                 defn="new(RuleViolationDetector, _module_requirement=self._updated_module_requirement, _behavior_requirement=self._behavior_requirement)",
+                 properties=["C01"]))
+REG.add(Contract("RuleViolationBaseDetector.__init__", module=M_RVD, kind="method",
+                 params=dict(self=RVD, module_requirement="ModuleRequirement", behavior_requirement="BehaviorRequirement"),
+                 returns="None", modifies=["self"],
+                 ensures=["self._module_requirement == module_requirement", "self._behavior_requirement == behavior_requirement"],
+                 properties=["C01"]))
+REG.add(Contract("RuleMatcher._find_rule_violations", module=M_RM, kind="method",
+                 params=dict(self=DRM, evaluable="EvaluableArchitectureGraph"), returns="RuleViolations",
+                 requires=["WF(evaluable._graph)", "no_regex(self._updated_module_requirement._importers)",
+                           "no_regex(self._updated_module_requirement._importees)"],
+                 raises=[("NetworkXError", "fv_raises(evaluable._graph, self._updated_module_requirement, self._behavior_requirement)")],
+                 ensures=["FV_post(evaluable._graph, self._updated_module_requirement, self._behavior_requirement, result)"],
+                 use_at_end=[f"{L}(evaluable._graph, self._updated_module_requirement._importers, self._updated_module_requirement._importees, self._updated_module_requirement._importer_specified_as_rule_subject, unwrap(explicitly_requested_dependencies))" for L in ("L_realised", "L_abstract")]
+                 + [f"{L}(evaluable._graph, self._updated_module_requirement._importers, self._updated_module_requirement._importees, self._updated_module_requirement._importees_as_specified_by_user, unwrap(not_explicitly_requested_dependencies))" for L in ("L_or_f", "L_or_r", "L_om_f", "L_om_r")],
+                 opaque=["realised_b", "abstract_b", "realised_m_b", "missing_b", "G_realised_b", "G_abstract_b", "G_or_f", "G_or_r", "G_om_f", "G_om_r"],
+                 properties=["C01", "C03", "C12", "C13"]))
+
